@@ -135,6 +135,26 @@ def run(worker, of, limit):
         sh("git -C /repo worktree remove --force %s; rm -rf %s %s; git -C /repo worktree prune" % (repo, repo, vw), "/")
 
 
+def one(mid, props):
+    """Applies one planned mutant in a scratch tree and runs the given quick checks against it (from a copy of the
+    current /verif working tree, so strengthened checks can be tried before committing)."""
+    p = [json.loads(l) for l in open(V + "/out/mutants/plan.jsonl") if json.loads(l)["id"] == mid][0]
+    repo, vw = "/tmp/mr9", "/tmp/vw9"
+    sh("git -C /repo worktree remove --force %s; rm -rf %s %s" % (repo, repo, vw), "/")
+    rc, out = sh("git -C /repo worktree add --detach %s HEAD" % repo, "/")
+    assert rc == 0, out
+    sh("mkdir -p %s && rsync -a --exclude out --exclude .git --exclude evidence /verif/ %s/ && mkdir -p %s/out %s/evidence" % (vw, vw, vw, vw), "/")
+    try:
+        rc, out = sh("/verif/out/mutgen -file /repo/%s -apply %d -out %s" % (p["file"], p["n"], os.path.join(repo, p["file"])), "/")
+        assert rc == 0, out
+        print(sh("git diff", repo)[1][:1500])
+        for pid in props:
+            rc, out = sh("./check %s --tier quick" % pid, vw, timeout=1500, env=dict(ENV, VERIF_REPO=repo))
+            print(pid, "exit", rc, [l.strip()[:300] for l in out.splitlines() if l.startswith("  ")][:1])
+    finally:
+        sh("git -C /repo worktree remove --force %s; rm -rf %s %s; git -C /repo worktree prune" % (repo, repo, vw), "/")
+
+
 def report():
     rs = [json.loads(l) for l in open(V + "/out/mutants/results.jsonl")]
     from collections import Counter
@@ -161,5 +181,7 @@ if __name__ == "__main__":
         plan(fs.split(",") if fs else list(FILES))
     elif cmd == "run":
         run(int(opt("--worker", "0")), int(opt("--of", "1")), int(opt("--limit", "0")))
+    elif cmd == "one":
+        one(args[0], args[1:])
     elif cmd == "report":
         report()
